@@ -141,7 +141,7 @@ var c06HistOps = []string{"Offer", "Unshift", "Shift", "Pop", "Peek", "Clear", "
 func vh_C06_History() {
 	q := NewLinkedListQueue[int]()
 	m := &c06Model{}
-	k := 3 + vfTier()
+	k := 4 + vfTier()
 	for i := 0; i < k; i++ {
 		c06Apply("", c06HistOps[vfChoose("op", len(c06HistOps))], q, m)
 	}
